@@ -228,6 +228,20 @@ def _split(it, a, k, n):
             if s.kind == "bytes":
                 return VList([VStr(x, "bytes") for x in cs.encode("latin-1").split()])
             return VList([VStr(x) for x in cs.split()])
+        ms = concrete_int(as_int(it.need(maxsplit))) if maxsplit is not None else None
+        if ms == 1 and not it.spec:
+            # s.split(None, 1): [] | [word] | [word, rest].  Over-approximation (sound): only the shape of
+            # the result and "pieces are non-empty" are kept, the pieces themselves are unconstrained
+            word = z3.String(it.ctx.fresh_name("split_w"))
+            rest = z3.String(it.ctx.fresh_name("split_r"))
+            it.ctx.assume(z3.Length(word) > 0, "split(None,1):word-nonempty")
+            k = it.ctx.choose([T(), T(), T()], "split-shape")
+            if k == 0:
+                return VList([])
+            if k == 1:
+                return VList([VStr(word, s.kind)])
+            it.ctx.assume(z3.Length(rest) > 0, "split(None,1):rest-nonempty")
+            return VList([VStr(word, s.kind), VStr(rest, s.kind)])
         raise Unsupported("split() on whitespace of symbolic string")
     sep = _other(it, s, sep, n)
     csep = concrete_str(sep.z)
@@ -340,6 +354,11 @@ def _encode(it, a, k, n):
                 it.raise_("UnicodeEncodeError", node=n)
             return VStr(s.z, "bytes")
     codec_z = z3.StringVal(cc)
+    if cc in ("utf-8", "utf8"):
+        # ASCII text is its own UTF-8 encoding (ground fact)
+        asc = z3.InRe(s.z, z3.Star(_range("\x00", "\x7f")))
+        it.ctx.assume(z3.Implies(asc, z3.And(ENC_OK(s.z, z3.StringVal(cc)), ENC(s.z, z3.StringVal(cc + ":" + ce)) == s.z)),
+                      "utf8-encode:ascii-identity")
     if ce == "strict" and not it.spec:
         exc = "UnicodeError" if cc == "idna" else "UnicodeEncodeError"
         if not it.branch(ENC_OK(s.z, codec_z), "encode-ok"):
